@@ -619,5 +619,7 @@ harnesses! {
     c10_alias_ri_op18 { prop: C10, feat: "c10", tier: thorough, mode: leaf, unwind: 5, caps: "drop=1" } => |s| c10::bind_alias(s, 18, 19, 2);
     c10_alias_ri_op19 { prop: C10, feat: "c10", tier: thorough, mode: leaf, unwind: 5, caps: "drop=1" } => |s| c10::bind_alias(s, 19, 20, 2);
     c10_alias_ri_op20 { prop: C10, feat: "c10", tier: thorough, mode: leaf, unwind: 5, caps: "drop=1" } => |s| c10::bind_alias(s, 20, 21, 2);
+    p06_wrongseg_0 { prop: X06, feat: "c06", tier: thorough, mode: pass, unwind: 3, caps: "drop=1,loop:avra_lib::builder::pass1::pass_1_internal.0=2,loop:avra_lib::builder::pass2::pass_2_internal.0=2,loop:avra_lib::builder::pass1::build_pass_1.0=2,loop:avra_lib::builder::pass2::build_pass_2.0=2" } => |s| step::wrong_segment(s, 0);
+    p13_gate_pass2 { prop: X13, feat: "c13", tier: thorough, mode: pass, unwind: 3, caps: "drop=1,loop:avra_lib::builder::pass1::pass_1_internal.0=2,loop:avra_lib::builder::pass2::pass_2_internal.0=2,loop:avra_lib::builder::pass1::build_pass_1.0=2,loop:avra_lib::builder::pass2::build_pass_2.0=2" } => |s| step::gate_in_pass2(s);
     // (C08: c08.rs is kept for the record - the 3-line instance reached 8 GB after 11 min and is not registered)
 }
